@@ -133,6 +133,63 @@ def root_guard_sites(fx):
     return out
 
 
+def handler_unwind(fx, ck, name="R5.handler-unwinds-scopes"):
+    """Every exit of find_exception_handler that hands control to a handler (returns Some) is dominated by an
+    unwind of the block scopes down to the handler's recorded depth: a comparison of a value read from
+    TryHandler.scope_depth with the scope stack, here or in a helper the depth is passed to.  A handler that
+    is entered with the try block's scopes still pushed keeps their environment guards for as long as nothing
+    re-throws (a `finally` that returns, breaks or continues): the guards leak and the next scope exit pops
+    the wrong environment."""
+    ck.rule(name, "each Some-return of find_exception_handler is dominated by an unwind to TryHandler.scope_depth", floor=2)
+    f = fx.one("BytecodeVM::find_exception_handler")
+
+    def from_depth(g, op, depth=0):
+        if op[0] not in ("c", "m") or depth > 6:
+            return False
+        if any(isinstance(e, list) and e[0] == "f" and e[2] == "scope_depth" and e[3].endswith("TryHandler") for e in op[1][1]):
+            return True
+        d = g.defs().get(op[1][0], [])
+        if len(d) == 1 and d[0][1] != "T" and d[0][2][0] == "use":
+            return from_depth(g, d[0][2][1], depth + 1)
+        return False
+
+    def compares_param(g, pi):
+        """g compares its parameter pi (a depth) in a loop that pops scopes"""
+        pops = any(t[1].get("d", "").endswith("Interpreter::pop_scope") for _, t in g.calls())
+        if not pops:
+            return False
+        import c10
+        for bl in g.blocks:
+            for st in bl["s"]:
+                if st[0] == "a" and st[2][0] == "bin" and st[2][1] in ("Lt", "Le", "Gt", "Ge"):
+                    for o in (st[2][2], st[2][3]):
+                        if o[0] in ("c", "m") and not o[1][1] and c10.copy_root_local(g, o[1][0]) == pi:
+                            return True
+        return False
+    unwind = set()
+    for bi, bl in enumerate(f.blocks):
+        for st in bl["s"]:
+            if st[0] == "a" and st[2][0] == "bin" and st[2][1] in ("Lt", "Le", "Gt", "Ge") and (from_depth(f, st[2][2]) or from_depth(f, st[2][3])):
+                unwind.add(bi)
+        t = bl["t"]
+        if t[0] == "call" and t[1].get("d") in fx.fns:
+            for ai, a in enumerate(t[2]):
+                if from_depth(f, a) and compares_param(fx.fns[t[1]["d"]], ai + 1):
+                    unwind.add(bi)
+    n = 0
+    for bi, bl in enumerate(f.blocks):
+        for st in bl["s"]:
+            if st[0] == "a" and st[1][0] == 0 and not st[1][1] and st[2][0] == "agg" and isinstance(st[2][1], dict) and st[2][1].get("v") == "Some":
+                n += 1
+                ok = any(f.dominates(u, bi) for u in unwind)
+                ck.instance(name, "find_exception_handler: return Some #%d" % n, F.short_span(st[3]), ok=ok)
+                if not ok:
+                    ck.finding(name, "%s/find_exception_handler" % name, F.short_span(st[3]),
+                               "find_exception_handler hands control to a handler without unwinding the block scopes to handler.scope_depth: if the handler "
+                               "does not re-throw (finally { return / break / continue }), the try block's scopes and their environment guards stay pushed")
+    ck.anchor(n >= 2, "Some-returns of find_exception_handler (found %d)" % n)
+
+
 def run(tier):
     ck = Check("C14", tier, "exit-path graph search on the MIR CFG (opener -> return avoiding closers) + who-may-open/close tables + call-graph reachability of permanent-root sites",
                ["that the number of live objects is constant across repetitions (needs the collector's semantics)",
@@ -178,4 +235,5 @@ def run(tier):
                 ck.finding("R4b.root-helper-callers", "R4b.root-helper-callers/%s/%s" % (helper.split("::")[-1], c), F.short_span(fx.fns[c].span) if c in fx.fns else None,
                            "`%s` runs after construction and calls `%s`, which allocates in the permanent root_guard: every call leaves an object that is never freed" % (c, helper))
     ck.assume("objects of loaded modules are meant to live as long as the interpreter (module cache)")
+    handler_unwind(fx, ck)
     return ck.finish()
